@@ -1,7 +1,7 @@
 """C04 - text content is placed verbatim: inline text and wrapped lines.
 
 AbbrText.tla : every balanced payload over the punctuation alphabet (plain characters, nested braces, backslash escapes);
-               TLC checks tokenizer-in-text-context machine = TextOf contract; each payload is replayed at seven positions
+               TLC checks tokenizer-in-text-context machine = TextOf contract; each payload is replayed at nine positions
                where text may appear and the element's content must equal TextOf(payload) byte for byte.
 AbbrWrap.tla : every list of wrap lines over 17 line atoms x 18 abbreviation templates (implicit repeater on elements and
                groups, $# placeholders in attribute and text, no repeater); TLC checks converter loop = loop-free contract;
@@ -23,6 +23,8 @@ POSITIONS = [
     ('text node as child', 'x>{%s}', 'x'),
     ('text on a sibling', 'y+x.c{%s}', 'x'),
     ('text in a group', '(x{%s})+y', 'x'),
+    ('text on an element with the self-closing mark', 'y>x{%s}/', 'x'),
+    ('text on a void-element snippet', 'y>br{%s}+z', 'br'),
 ]
 
 
@@ -40,7 +42,7 @@ def _text_chunk(items):
             case = {'abbr': abbr, 'payload': p, 'position': pname, 'format': fmt, 'expected_text': t}
             try:
                 with common.Alarm(10):
-                    out = emmet.expand(abbr, {'options': {'output.format': fmt}})
+                    out = emmet.expand(abbr, {'options': {'output.format': fmt, 'output.selfClosingStyle': 'xhtml'}})
             except Exception as ex:
                 bad.append(('expand raised', dict(case, exception=type(ex).__name__, site=common.innermost_emmet_frame(ex))))
                 continue
@@ -158,8 +160,8 @@ def run(out):
             out.sample({'payload': p, 'text': vecs[p]['t']})
 
     atoms = {"a", " b ", "", "  ", "*c", "$x", "[d]", "a>b", "${1}", "$#", "it$$", "x y", "{z}", ".c", "eBSf", "'q'", "~"}
-    winsts = [('wrap-exhaustive', dict(constants={'MaxLines': 2 if quick else 3, 'LineAtoms': atoms, 'TemplateIdx': set(range(1, 19))})),
-              ('wrap-simulated', dict(constants={'MaxLines': 6, 'LineAtoms': atoms, 'TemplateIdx': set(range(1, 19))},
+    winsts = [('wrap-exhaustive', dict(constants={'MaxLines': 2 if quick else 3, 'LineAtoms': atoms, 'TemplateIdx': set(range(1, 21))})),
+              ('wrap-simulated', dict(constants={'MaxLines': 6, 'LineAtoms': atoms, 'TemplateIdx': set(range(1, 21))},
                                       simulate=3 if quick else 60, depth=7, seed=out.seed))]
     for name, kw in winsts:
         r = common.run_tlc('AbbrWrap', timeout=3000, heap='12g', **kw)
